@@ -232,6 +232,7 @@ def r3_position(ctx, repo):
         tn = [x.id for x in ast.walk(lp.target) if isinstance(x, ast.Name)]
         fake = ast.FunctionDef(name="b", args=fn.args, body=lp.body, decorator_list=[], returns=None, type_comment=None, lineno=lp.lineno, col_offset=0)
         bad = None
+        unknown = None
         npaths = 0
         for p in Enumerator(loop_counts=(0, 1)).function_paths(fake):
             npaths += 1
@@ -269,6 +270,28 @@ def r3_position(ctx, repo):
                         except ValueError:
                             scales.append(None)
             violated = [k for k, v in hit.items() if v]
+            if not hit:
+                # no comparison with a bound on this path: how is the stored coordinate computed?
+                recon = None
+                stored_names = {e.node.value.id for e in p.events if e.kind == "stmt" and isinstance(e.node, ast.Assign) and isinstance(e.node.value, ast.Name)
+                                and ".vector[" in text(e.node.targets[0])}
+                for k_, e in enumerate(p.events):
+                    if e.kind == "stmt" and isinstance(e.node, (ast.Assign, ast.AugAssign)):
+                        s = e.node
+                        tgt = s.targets[0] if isinstance(s, ast.Assign) else s.target
+                        if ".vector[" not in text(pe.expand_at(tgt, k_)) and not (isinstance(tgt, ast.Name) and tgt.id in stored_names):
+                            continue
+                        v = pe.expand_at(s.value, k_)
+                        if isinstance(s, ast.AugAssign) and isinstance(s.op, ast.Sub) or (isinstance(v, ast.BinOp) and isinstance(v.op, ast.Sub)):
+                            sub = v if isinstance(s, ast.AugAssign) else v.right
+                            if any(isinstance(n_, ast.BinOp) and isinstance(n_.op, ast.Sub) and "['bounds']" in text(n_.right) for n_ in ast.walk(sub)):
+                                recon = (s, text(sub))
+                if recon is not None:
+                    bad = bad or (recon[0], "an escaping coordinate is corrected by subtracting its overshoot (%s) instead of being set to the violated bound: in floating point "
+                                            "x - (x - bound) is not always bound, so the particle can end beside or outside the box" % recon[1][:90])
+                else:
+                    unknown = unknown or (lp, "no comparison with the bounds on the path [%s]: the correction of an escaping coordinate is not recognised" % p.describe(4))
+                continue
             if "upper" not in hit or ("lower" not in hit and not hit.get("upper")):
                 bad = bad or (lp, "a coordinate is not tested against %s bound on the path [%s]" % ("its upper" if "upper" not in hit else "its lower", p.describe(4)))
             if sorted(sets) != sorted(violated):
@@ -280,6 +303,8 @@ def r3_position(ctx, repo):
                     bad = bad or (lp, "velocity component is multiplied by %r, expected %r for %s" % (f, want_factor, c.name))
         if bad:
             ctx.violated("R3", C, where(c.module, bad[0]), bad[1])
+        elif unknown:
+            ctx.inconclusive("R3", C, where(c.module, unknown[0]), unknown[1])
         else:
             ctx.holds("R3", C, where(c.module, fn), "out-of-box coordinate -> violated bound, velocity component x %r on exactly those paths (%d body paths)" % (want_factor, npaths))
     ctx.count("update_position_overrides", n)
